@@ -44,7 +44,8 @@ TRUSTED = [
     "request classes of the property and is not modelled",
 ]
 RULE = (
-    "request classes = route x method kind x body (valid | parseFail(10 exception classes) | badMeta(6) | badParams(2) | "
+    "request classes = route (unary | init | exchange | the framework's upload-URL route) x method kind (unary | producer | "
+    "exchanger | unknown | the built-in __describe__) x body (valid | parseFail(10 exception classes) | badMeta(6) | badParams(2) | "
     "cancel | badValue(9 conversion-failure classes: unknown Enum member, undecodable nested-dataclass blob, ...)) x content "
     "type (correct | wrong | missing | wrong-but-extending-the-right-one) x content encoding (none | supported | "
     "unsupported | corrupt | bomb | decoded length exactly the cap, per coding: gzip, zstd with / without a declared size) "
@@ -82,8 +83,8 @@ MAX_RESP = 4096
 TOKEN_KEY = b"k" * 32
 PROTO_VERSION = "1.4.0"
 
-ROUTES = ["unary", "init", "exchange"]
-KINDS = ["unary", "producer", "exchanger", "unknown"]
+ROUTES = ["unary", "init", "exchange", "uploadUrl"]
+KINDS = ["unary", "producer", "exchanger", "unknown", "describe"]
 PARSE_EXC = ["arrowInvalid", "osError", "arrowNotImplemented", "arrowKeyError", "arrowTypeError", "arrowOther",
              "ipcError", "ipcErrorLate", "unicodeDecode", "stopIteration"]
 META = ["noMethodKey", "badMethodUtf8", "noVersionKey", "badVersion", "methodMismatch", "protocolVersion"]
@@ -248,9 +249,27 @@ def _authenticate(req: Any) -> AuthContext:
     return AuthContext(domain="t", authenticated=True, principal="u")
 
 
-METHOD_OF_KIND = {"unary": "echo", "producer": "gen", "exchanger": "exch"}
+METHOD_OF_KIND = {"unary": "echo", "producer": "gen", "exchanger": "exch", "describe": "__describe__"}
+UPLOAD_METHOD = "__upload_url__"
+UPLOAD_SCHEMA = pa.schema([("count", pa.int64())])
+UPLOAD_FAIL = [False]
 UNKNOWN_NAMES = ["nope", "echo2", "Echo", "gen_", "x", "exchx", "add", "unknown_method_with_a_long_name", "e", "ECHO"]
 IN_SCHEMA = pa.schema([("v", pa.int64())])
+
+
+class UploadProvider:
+    """`UploadUrlProvider` for the framework's upload-URL route; fails on demand."""
+
+    def generate_upload_url(self, schema: pa.Schema) -> Any:
+        from datetime import UTC, datetime, timedelta
+
+        from vgi_rpc.external import UploadUrl
+
+        CALLS.append("upload_url")
+        if UPLOAD_FAIL[0]:
+            raise RuntimeError("provider failed")
+        return UploadUrl(upload_url="https://storage.invalid/u", download_url="https://storage.invalid/d",
+                         expires_at=datetime.now(UTC) + timedelta(hours=1))
 
 
 class Env:
@@ -261,11 +280,13 @@ class Env:
 
         from vgi_rpc.http import make_wsgi_app
 
-        self.server = RpcServer(HttpProto, Impl())
+        self.server = RpcServer(HttpProto, Impl(), enable_describe=True)
         self.app = make_wsgi_app(self.server, token_key=TOKEN_KEY, max_request_bytes=MAX_REQ,
-                                 max_response_bytes=MAX_RESP, authenticate=_authenticate)
+                                 max_response_bytes=MAX_RESP, authenticate=_authenticate,
+                                 upload_url_provider=UploadProvider())
         self.client = falcon.testing.TestClient(self.app)
         self.schemas = {m: self.server._methods[m].params_schema for m in ("echo", "gen", "exch", "paint", "paint_rows", "paint_echo")}
+        self.schemas[UPLOAD_METHOD] = UPLOAD_SCHEMA
         # how many batches the first producer turn holds (so a continuation can be made to fail on its first tick)
         md, nb = self._init_tokens("gen", {"n": 8, "size": 1500, "fail_init": False, "fail_at": -1})
         self.first_turn = nb
@@ -536,19 +557,28 @@ def spec_defects(c: dict[str, str]) -> list[tuple[str, int]]:
     if c["ctype"] != "correct":
         d.append(("wrongContentType", 415))
     route, kind, body = c["route"], c["kind"], c["body"]
-    if kind == "unknown":
-        d.append(("unknownMethod", 404))
-    elif (route == "unary") != (kind == "unary"):
-        d.append(("routeMismatch", 400))
+    upload = route == "uploadUrl"   # the framework's own method on a literal route: `kind` plays no role
+    if not upload:
+        if kind == "unknown":
+            d.append(("unknownMethod", 404))
+        elif (route == "unary") != (kind in ("unary", "describe")):   # `__describe__` is a unary method
+            d.append(("routeMismatch", 400))
     if body.startswith("parseFail"):
         d.append(("malformed", 400))
+    elif body == "badMeta:protocolVersion":
+        # not demanded of introspection (how a mismatched client learns the server's version) nor of the upload-URL method
+        if route != "exchange" and not upload and kind != "describe":
+            d.append(("malformed", 400))
     elif body.startswith("badMeta"):
         if route != "exchange":  # request metadata belongs to unary / init requests
             d.append(("malformed", 400))
     elif body.startswith("badValue"):
-        if route != "exchange":  # parameter values travel on unary / init requests ("parameter ... rejections")
+        if route != "exchange" and not upload:  # typed parameter values travel on unary / init requests
             d.append(("malformed", 400))
-    elif body.startswith("badParams"):
+    elif body == "badParams:mismatch":
+        if (route != "exchange" or kind == "exchanger") and not upload:   # upload-URL: one optional `count`, rest ignored
+            d.append(("malformed", 400))
+    elif body == "badParams:badNames":
         if route != "exchange" or kind == "exchanger":  # a producer continuation's tick columns are not looked at
             d.append(("malformed", 400))
     if route == "exchange" and c["token"] != "valid":
@@ -559,6 +589,8 @@ def spec_defects(c: dict[str, str]) -> list[tuple[str, int]]:
 def spec_failed(c: dict[str, str]) -> bool:
     if c["route"] == "exchange" and c["body"] == "cancel":
         return False  # "the server ends the stream without dispatching the method"
+    if c["route"] != "uploadUrl" and c["kind"] == "describe":
+        return False  # introspection runs no user code and has no cap
     if c["beh"] in ("raises", "turnRaises"):
         return True
     if c["beh"] == "overshoot":  # hard cap: unary results and exchange turns; producer cap is soft
@@ -688,17 +720,23 @@ def build_request(env: Env, pool: ParsePool, c: dict[str, str], rng: Any) -> dic
     name = METHOD_OF_KIND.get(kind) or rng.choice(UNKNOWN_NAMES)
     bad_kwargs = None
     if body_cls.startswith("badValue:") and route != "exchange":
+        if kind == "describe" and route != "uploadUrl":
+            return None  # `__describe__` has no parameters to convert
         bad_kwargs = bad_value(body_cls.split(":")[1], rng)
         if bad_kwargs is None:
             return None
         name = PAINT_OF_KIND.get(kind) or name
-    path = "/" + name + {"unary": "", "init": "/init", "exchange": "/exchange"}[route]
+    if route == "uploadUrl":
+        name = UPLOAD_METHOD   # a literal route: the framework's own method, whatever `kind` says
+    path = "/" + name + {"unary": "", "init": "/init", "exchange": "/exchange", "uploadUrl": "/init"}[route]
     notes: dict[str, Any] = {"method": name}
     beh = c["beh"]
 
     # ---- plain (uncompressed) body
-    if route in ("unary", "init"):
-        if name == "echo":
+    if route in ("unary", "init", "uploadUrl"):
+        if name == UPLOAD_METHOD:
+            kwargs = {"count": rng.choice([1, 1, 2, 5, 0, -3, 1000])}
+        elif name == "echo":
             kwargs = {"n": rng.choice([0, 1, 7, 100, 900]), "fail": False}
             if route == "unary":
                 if beh in ("raises", "turnRaises"):
@@ -722,7 +760,8 @@ def build_request(env: Env, pool: ParsePool, c: dict[str, str], rng: Any) -> dic
             kwargs = {}
         if bad_kwargs is not None:
             kwargs = dict(bad_kwargs)
-        base_kind = f"{route}:{name if name in METHOD_OF_KIND.values() else 'unknown'}"
+        base_kind = "uploadUrl:upload" if route == "uploadUrl" else \
+            f"{route}:{name if name in ('echo', 'gen', 'exch') else 'unknown'}"
         edit = None
         schema = None
         rows = None
@@ -752,6 +791,8 @@ def build_request(env: Env, pool: ParsePool, c: dict[str, str], rng: Any) -> dic
         elif body_cls == "badParams:mismatch":
             sch0 = env.schemas.get(name, pa.schema([]))
             variant = rng.choice(["extra", "missing", "renamed", "rows0", "rows2", "type"] if len(sch0) else ["extra", "rows2x"])
+            if route == "uploadUrl":
+                variant = rng.choice(["extra", "missing", "renamed", "type"])   # columns; the row count is `_read_request`'s
             notes["params"] = variant
             if variant == "extra":
                 schema = sch0.append(pa.field("zz_extra", pa.int64()))
@@ -973,15 +1014,20 @@ def build_request(env: Env, pool: ParsePool, c: dict[str, str], rng: Any) -> dic
         headers["X-Request-ID"] = "r" + str(rng.randrange(10**6))
     if rng.random() < 0.1:
         headers["Accept"] = rng.choice(["*/*", "text/html", CT])
-    return {"path": path, "headers": headers, "body": wire, "notes": notes, "predicted_exc": predicted_exc}
+    return {"path": path, "headers": headers, "body": wire, "notes": notes, "predicted_exc": predicted_exc,
+            "upload_fail": route == "uploadUrl" and beh in ("raises", "turnRaises")}
 
 
 # ------------------------------------------------------------------------------------------ observe / check
 
 
-def observe(env: Env, path: str, headers: dict[str, str], body: bytes) -> dict[str, Any]:
+def observe(env: Env, path: str, headers: dict[str, str], body: bytes, upload_fail: bool = False) -> dict[str, Any]:
     CALLS.clear()
+    UPLOAD_FAIL[0] = upload_fail
     r = env.client.simulate_post(path, body=body, headers=headers)
+    UPLOAD_FAIL[0] = False
+    if path == "/__describe__" and r.status_code == 200 and r.headers.get("X-VGI-RPC-Error") is None:
+        CALLS.append("describe")   # answered from the pre-built batch: no implementation code to log the call
     arrow = False
     err = None
     if (r.headers.get("content-type") or "") == CT:
@@ -1033,7 +1079,7 @@ def oracle(ctx: Any, case: dict[str, Any], c: dict[str, str], obs: dict[str, Any
 
 def check_case(ctx: Any, env: Env, c: dict[str, str], req: dict[str, Any], sub: int, model: dict[str, Any] | None,
                lean_spec: dict[str, Any] | None) -> None:
-    obs = observe(env, req["path"], req["headers"], req["body"])
+    obs = observe(env, req["path"], req["headers"], req["body"], upload_fail=req.get("upload_fail", False))
     case = {"cls": c, "sub": sub, "path": req["path"], "headers": req["headers"], "notes": req["notes"],
             "body_len": len(req["body"]), "body_sha": __import__("hashlib").sha256(req["body"]).hexdigest()[:16]}
     defects = spec_defects(c)
@@ -1075,38 +1121,41 @@ def weak_oracle(ctx: Any, case: dict[str, Any], route: str, obs: dict[str, Any])
 # ------------------------------------------------------------------------------------------ run
 
 
+def _route_kinds(rng: Any) -> list[tuple[str, str]]:
+    """(route, kind) pairs: the method kind is enumerated except on the literal upload-URL route, where it is drawn."""
+    return [(r, k) for r in ROUTES if r != "uploadUrl" for k in KINDS] + [("uploadUrl", rng.choice(KINDS))]
+
+
 def _classes_quick(rng: Any) -> list[dict[str, str]]:
     out = []
-    for route in ROUTES:
-        for kind in KINDS:
-            for body in BODIES:
-                for ctype in CTYPES:
-                    # the three at-the-cap codings are one class here (drawn), all three in the passes below
-                    for cenc in CENCS[:5] + [rng.choice(CENCS[5:])]:
-                        for token in TOKENS:
-                            out.append({"route": route, "kind": kind, "body": body, "ctype": ctype, "cenc": cenc,
-                                        "size": rng.choice(["within"] * 7 + ["oversize"] * 2 + ["atCap"]),
-                                        "auth": "ok" if rng.random() < 0.8 else "rejected",
-                                        "token": token, "beh": rng.choice(BEHS)})
-    for route in ROUTES:
-        for kind in KINDS:
-            for size in SIZES:
-                for auth in AUTHS:
-                    for beh in BEHS:
-                        for body in ("valid", "cancel"):
-                            for cenc in CENCS:
-                                out.append({"route": route, "kind": kind, "body": body, "ctype": "correct", "cenc": cenc,
-                                            "size": size, "auth": auth, "token": "valid", "beh": beh})
+    for route, kind in _route_kinds(rng):
+        for body in BODIES:
+            for ctype in CTYPES:
+                # the three at-the-cap codings are one class here (drawn), all three in the passes below
+                for cenc in CENCS[:5] + [rng.choice(CENCS[5:])]:
+                    # tokens are looked at on /exchange only: enumerated there, drawn elsewhere
+                    for token in (TOKENS if route == "exchange" else [rng.choice(TOKENS)]):
+                        out.append({"route": route, "kind": kind, "body": body, "ctype": ctype, "cenc": cenc,
+                                    "size": rng.choice(["within"] * 7 + ["oversize"] * 2 + ["atCap"]),
+                                    "auth": "ok" if rng.random() < 0.8 else "rejected",
+                                    "token": token, "beh": rng.choice(BEHS)})
+    for route, kind in _route_kinds(rng):
+        for size in SIZES:
+            for auth in AUTHS:
+                for beh in BEHS:
+                    for body in (("valid", "cancel") if route == "exchange" else ("valid",)):
+                        for cenc in CENCS:
+                            out.append({"route": route, "kind": kind, "body": body, "ctype": "correct", "cenc": cenc,
+                                        "size": size, "auth": auth, "token": "valid", "beh": beh})
     # everything the resources decide on requests that pass the middleware chain and the content-type check
-    for route in ROUTES:
-        for kind in KINDS:
-            for body in BODIES:
-                for token in TOKENS:
-                    for beh in BEHS:
-                        out.append({"route": route, "kind": kind, "body": body, "ctype": "correct",
-                                    "cenc": rng.choice(["none", "none", "supported"] + CENCS[5:]),
-                                    "size": rng.choice(["within", "within", "within", "atCap"]), "auth": "ok",
-                                    "token": token, "beh": beh})
+    for route, kind in _route_kinds(rng):
+        for body in BODIES:
+            for token in (TOKENS if route == "exchange" else [rng.choice(TOKENS)]):
+                for beh in BEHS:
+                    out.append({"route": route, "kind": kind, "body": body, "ctype": "correct",
+                                "cenc": rng.choice(["none", "none", "supported"] + CENCS[5:]),
+                                "size": rng.choice(["within", "within", "within", "atCap"]), "auth": "ok",
+                                "token": token, "beh": beh})
     return out
 
 
@@ -1116,15 +1165,14 @@ def _classes_full(rng: Any) -> Any:
     resources read only the rest.  (a) every resource-level class behind every (size, encoding) pair the chain lets
     through; (b) every (size, encoding, auth) class in front of 1 500 drawn resource-level classes."""
     passing = [("within", "none"), ("atCap", "none"), ("within", "supported")] + [("within", c) for c in CENCS[5:]]
-    for route in ROUTES:
-        for kind in KINDS:
-            for body in BODIES:
-                for ctype in CTYPES:
-                    for token in TOKENS:
-                        for beh in BEHS:
-                            for size, cenc in passing:
-                                yield {"route": route, "kind": kind, "body": body, "ctype": ctype, "cenc": cenc,
-                                       "size": size, "auth": "ok", "token": token, "beh": beh}
+    for route, kind in _route_kinds(rng):
+        for body in BODIES:
+            for ctype in CTYPES:
+                for token in TOKENS:
+                    for beh in BEHS:
+                        for size, cenc in passing:
+                            yield {"route": route, "kind": kind, "body": body, "ctype": ctype, "cenc": cenc,
+                                   "size": size, "auth": "ok", "token": token, "beh": beh}
     for cenc in CENCS:
         for size in SIZES:
             if size == "atCap" and cenc not in ("none", "unsupported", "corrupt"):
@@ -1144,6 +1192,7 @@ def _bases(env: Env) -> dict[str, tuple[bytes, str]]:
         "unary:gen": (env.request("gen", {"n": 1, "size": 1, "fail_init": False, "fail_at": -1}), "unary"),
         "unary:exch": (env.request("exch", {"k": 1, "fail_init": False}), "unary"),
         "unary:unknown": (env.request("nope", {}), "unary"),
+        "uploadUrl:upload": (env.request(UPLOAD_METHOD, {"count": 2}), "unary"),
         "init:echo": (env.request("echo", {"n": 3, "fail": False}), "init"),
         "init:gen": (env.request("gen", {"n": 1, "size": 1, "fail_init": False, "fail_at": -1}), "init"),
         "init:exch": (env.request("exch", {"k": 1, "fail_init": False}), "init"),
@@ -1228,7 +1277,7 @@ def run(ctx: Any) -> None:
     n_fuzz = ctx.budget(4000, 80000)
     hdr = {"Content-Type": CT, "Authorization": "Bearer ok"}
     paths = {"unary:echo": "/echo", "init:gen": "/gen/init", "init:exch": "/exch/init", "exchange:exch": "/exch/exchange",
-             "exchange:gen": "/gen/exchange"}
+             "exchange:gen": "/gen/exchange", "uploadUrl:upload": "/__upload_url__/init", "unary:unknown": "/__describe__"}
     keys = sorted(paths)
     for _ in range(n_fuzz):
         sub = ctx.rng.randrange(2**32)
@@ -1263,7 +1312,7 @@ def replay(ctx: Any, case: dict[str, Any]) -> None:
         base, route = bases[bk]
         body = apply_ops(base, case["ops"])
         paths = {"unary:echo": "/echo", "init:gen": "/gen/init", "init:exch": "/exch/init", "exchange:exch": "/exch/exchange",
-                 "exchange:gen": "/gen/exchange"}
+                 "exchange:gen": "/gen/exchange", "uploadUrl:upload": "/__upload_url__/init", "unary:unknown": "/__describe__"}
         obs = observe(env, paths[bk], {"Content-Type": CT, "Authorization": "Bearer ok"}, body)
         ctx.case(case)
         weak_oracle(ctx, case, route, obs)
